@@ -458,12 +458,29 @@ impl FileManager {
         );
 
         for index_name in self.list_indexes(schema, table)? {
+            // a cached mapping of the removed file must not outlive it: a table created
+            // later under the same name would be written through the stale mapping
+            let key = FileKey::Index {
+                schema: schema.to_string(),
+                table: table.to_string(),
+                index_name: index_name.clone(),
+            };
+            if let Some(lock) = self.open_files.remove(&key) {
+                drop(lock);
+            }
             let index_path = self.index_file_path(schema, table, &index_name);
             fs::remove_file(&index_path).wrap_err_with(|| {
                 format!("failed to remove index file '{}'", index_path.display())
             })?;
         }
 
+        let key = FileKey::TableData {
+            schema: schema.to_string(),
+            table: table.to_string(),
+        };
+        if let Some(lock) = self.open_files.remove(&key) {
+            drop(lock);
+        }
         let table_path = self.table_file_path(schema, table);
         fs::remove_file(&table_path)
             .wrap_err_with(|| format!("failed to remove table file '{}'", table_path.display()))?;
